@@ -821,6 +821,17 @@ FLOAT_PI_MODULES = {"strawberryfields.ops", "strawberryfields.compilers.compiler
                     "strawberryfields.tdm.program", "strawberryfields.compilers.tdm"}
 
 
+_ABSENT = object()
+
+
+def _restore(m, k, v):
+    if v is _ABSENT:
+        if k in vars(m):
+            delattr(m, k)
+    else:
+        setattr(m, k, v)
+
+
 class Installed:
     """context manager replacing numpy (and math/cmath) in the namespaces of the given modules"""
 
@@ -851,7 +862,7 @@ class Installed:
         self.clear_caches()
         for m, k, v in reversed(self.saved):
             self._susp.append((m, k, getattr(m, k)))
-            setattr(m, k, v)
+            _restore(m, k, v)
 
     def resume(self):
         self.clear_caches()
@@ -893,14 +904,20 @@ class Installed:
                     self.saved.append((m, k, v))
                     setattr(m, k, new)
         for (m, k), v in self.extra.items():
-            self.saved.append((m, k, getattr(m, k)))
+            self.saved.append((m, k, getattr(m, k, _ABSENT)))
             setattr(m, k, v)
+        # float(x) / complex(x) on a symbolic value inside the modules under test: keep the symbol
+        for m in self.modules:
+            for k, v in (("float", _p_float), ("complex", _p_complex)):
+                if k not in vars(m):
+                    self.saved.append((m, k, _ABSENT))
+                    setattr(m, k, v)
         return self
 
     def __exit__(self, *exc):
         Installed.active = self._outer
         self.clear_caches()
         for m, k, v in reversed(self.saved):
-            setattr(m, k, v)
+            _restore(m, k, v)
         self.saved = []
         return False
